@@ -127,7 +127,12 @@ func TestC04(t *testing.T) {
 		case 1:
 			files = append(files, addSameBasenameFiles(rt, c, f)...)
 		case 2:
-			addCollidingDefs(rt, c, f, "required")
+			addCollidingDefs(rt, c, f, rapid.SampledFrom([]string{"required", "default"}).Draw(rt, "collidefamily"))
+		}
+		if len(f.Defs) > 0 && rapid.IntRange(0, 3).Draw(rt, "stalelegacy") == 0 {
+			// both container keywords; the legacy one holds a stale copy without the required lists
+			f.Spelling.BothDefs, f.Spelling.StaleLegacy = true, true
+			c.Count("shape.stale_legacy_definitions")
 		}
 		cs := caseOf(drawDecodeOptions(rt, c, f), []string{f.RelPath}, files...)
 		countShapes(c, f, cs.Config)
@@ -178,6 +183,18 @@ func TestC03(t *testing.T) {
 		}
 		if rapid.IntRange(0, 2).Draw(rt, "nullarrays") == 0 {
 			addNullItemArrays(rt, c, f)
+		}
+		if rapid.IntRange(0, 3).Draw(rt, "fracmultint") == 0 && f.Root.Kind == model.KObject {
+			// an integer stays an integer whatever its multipleOf says (1.5 and 1.25 keep the tool's
+			// truncated divisor harmless for valid documents: the valid integers are multiples of 3 / 5)
+			m := rapid.SampledFrom([]float64{1.5, 1.25}).Draw(rt, "fracmultv")
+			mk := func() *model.Node { return &model.Node{Kind: model.KInteger, MultipleOf: &m} }
+			nn := mk()
+			nn.Nullable = true
+			f.Root.Props = append(f.Root.Props, model.Prop{Name: "zfracmult", Node: mk()}, model.Prop{Name: "zfracmultnull", Node: nn},
+				model.Prop{Name: "zfracmultlist", Node: &model.Node{Kind: model.KArray, Items: &model.Node{Kind: model.KInteger, MultipleOf: &m}}})
+			f.Root.Required = append(f.Root.Required, "zfracmult", "zfracmultlist")
+			c.Count("shape.integer_with_fractional_multipleof")
 		}
 		if rapid.IntRange(0, 3).Draw(rt, "nullableallof") == 0 {
 			addNullableObjectAllOf(rt, c, f)
@@ -307,7 +324,22 @@ func TestC02(t *testing.T) {
 	runProperty(c, "run", c.N(250, 6000), 0, func(rt *rapid.T) *RunCase {
 		f := genStructural(rt, c, prof)
 		addOptionalDefaults(rt, c, f, 0.15, o)
-		cs := caseOf(drawDecodeOptions(rt, c, f), []string{f.RelPath}, f)
+		files := []*model.File{f}
+		if rapid.IntRange(0, 4).Draw(rt, "sibling") == 0 {
+			kind := model.KAllOf
+			if rapid.Bool().Draw(rt, "siblinganyof") {
+				kind = model.KAnyOf
+			}
+			sib := addSameLocalRefSibling(rt, c, f, kind)
+			files = append(files, sib)
+			if rapid.Bool().Draw(rt, "siblingnoid") {
+				// neither document states an identifier
+				f.NoID, sib.NoID = true, true
+				c.Count("shape.sibling_without_ids")
+			}
+		}
+		f.Schema = rapid.SampledFrom(schemaURIs).Draw(rt, "schemauri")
+		cs := caseOf(drawDecodeOptions(rt, c, f), []string{f.RelPath}, files...)
 		countShapes(c, f, cs.Config)
 		jobs := buildJobs(rt, c, f.Root, progRoot, plan, o, cs)
 		c.Sample(sampleOf(cs, jobs))
